@@ -84,12 +84,11 @@ theorem surface_above (g : Geo) (lay : Layer) (col : Column) (hwf : LayersWF g)
 
 /-! ### missing spacing -/
 
-theorem missing_spacing (T : TGrid) (ob : GBlock) (p1 p2 : Nat) (c1 c2 : GConn) (a b c : Rat)
-    (h1 : firstConnIn T ob.name p1 = .ok c1) (h2 : firstConnIn T ob.name p2 = .ok c2)
-    (hd1 : conDist c1 ob.name = .ok (a / 2)) (hd2 : conDist c2 ob.name = .ok (b / 2))
-    (ha : a ≠ 0) (hb : b ≠ 0) (hv : ob.volume = a * b * c) :
-    missingSpacing T ob [p1, p2] ob.volume = .ok c := by
-  simp only [missingSpacing, h1, h2, hd1, hd2, hv]
+theorem missing_spacing (s1 s2 s3 : List Rat) (p1 p2 : Nat) (a b c vol : Rat)
+    (h1 : ownSpacing s1 s2 s3 p1 = .ok a) (h2 : ownSpacing s1 s2 s3 p2 = .ok b)
+    (ha : a ≠ 0) (hb : b ≠ 0) (hv : vol = a * b * c) :
+    missingSpacing s1 s2 s3 [p1, p2] vol = .ok c := by
+  simp only [missingSpacing, h1, h2, hv]
   congr 1
   field_simp
 
